@@ -70,6 +70,19 @@ func (c *Cer) StartDKG(proposer, threshold int, members []int) (string, *APIResu
 	return RoundID(payload), rep
 }
 
+// StartDKGUnder puts the opening proposal on the board under a round id of the
+// proposer's choosing (the node's own /startDKG derives the id from the payload;
+// nothing makes anybody else do so: the opening proposal is the one message nobody
+// authenticates).
+func (c *Cer) StartDKGUnder(proposer, threshold int, members []int, id string) string {
+	w := c.W
+	n := w.Nodes[proposer]
+	m := storage.Message{DkgRoundID: id, Event: "event_sig_proposal_init", Data: w.StartDKGPayload(threshold, members), SenderAddr: n.Name}
+	m.Signature = ed25519.Sign(n.Priv, m.Bytes())
+	w.Board.Append(proposer, m)
+	return id
+}
+
 func (c *Cer) AllInState(round, st string, members []int) bool {
 	for _, i := range members {
 		if c.W.Nodes[i].RoundState(round) != st {
